@@ -16,7 +16,7 @@ use crate::engine::{Case, Ctx, Sm64};
 use crate::gen::shard::{key, materialize, mh, serialize, shard_spec, unkey, ShardSpec, K};
 use crate::util::SlowReader;
 
-pub const RULE: &str = "shard contents = sets of distinct-keyed file / xorb records (0..3000 files, 0..600 xorbs, 0..40 segments or chunks each and occasionally 70..130 segments of 60-64 MiB, i.e. files over 4 GiB; four flag combinations, empty records) whose truncated keys are engineered (0, 1, MAX-1, MAX, clustered windows, uniform, shared prefixes up to 7 per prefix); oracle = the map model the shard was built from: every present key returns exactly its record, absent / same-prefix / neighbouring-prefix keys return not-found, scans return all records in table order, sizes and totals match, the streaming (sync + async with generated read fragmentation) and minimal readers (all include-flag pairs, and their re-serialization) yield the same record bytes. Second stream: raw sorted (u64,u32) tables of 0..5000 keys with duplicate runs and extreme values against a linear-scan model of search_on_sorted_u64s. non-trivial = a lookup table of > 256 entries queried for a key (so the interpolation phase runs) with >= 2 records sharing its prefix, or a shard with >= 2 records sharing a prefix; for raw tables: > 256 entries and a queried key with >= 2 entries; distinct by fingerprint of the generated case";
+pub const RULE: &str = "shard contents = sets of distinct-keyed file / xorb records (0..3000 files, 0..600 xorbs, 0..40 segments or chunks each and occasionally 70..130 segments of 60-64 MiB, i.e. files over 4 GiB; four flag combinations, empty records) whose truncated keys are engineered (0, 1, MAX-1, MAX, clustered windows, uniform, shared prefixes up to 7 per prefix); oracle = the map model the shard was built from: every present key returns exactly its record, absent / same-prefix / neighbouring-prefix keys return not-found, scans return all records in table order, sizes and totals match, the streaming (sync + async with generated read fragmentation, with both, either or none of the two callbacks) and minimal readers (all include-flag pairs, and their re-serialization) yield the same record bytes. Second stream: raw sorted (u64,u32) tables of 0..5000 keys with duplicate runs and extreme values against a linear-scan model of search_on_sorted_u64s. non-trivial = a lookup table of > 256 entries queried for a key (so the interpolation phase runs) with >= 2 records sharing its prefix, or a shard with >= 2 records sharing a prefix; for raw tables: > 256 entries and a queried key with >= 2 entries; distinct by fingerprint of the generated case";
 
 pub const ASSUMPTIONS: &[&str] = &[
     "shard contents are sets of distinct keys (the quantifier ranges over contents, not insertion histories)",
@@ -279,6 +279,50 @@ fn shard_oracle(c: &ShardCase, info: &mut Case) -> Result<(), String> {
         .map_err(|e| format!("[sig:c09-stream-err] async: {e}"))?;
         if fb2 != want_file_bytes || cb2 != want_cas_bytes {
             return Err("[sig:c09-stream-async] process_shard_stream_async yields different records than the model".into());
+        }
+    }
+    // the streaming reader with only one of its two callbacks (the other section has to be skipped over), sync and async
+    {
+        type FF = fn(mdb_shard::file_structs::MDBFileInfoView) -> mdb_shard::error::Result<()>;
+        type CF = fn(mdb_shard::cas_structs::MDBCASInfoView) -> mdb_shard::error::Result<()>;
+        for (with_f, with_c) in [(true, false), (false, true), (false, false)] {
+            for is_async in [false, true] {
+                let mut fb = Vec::new();
+                let mut cb = Vec::new();
+                let fcb = |v: mdb_shard::file_structs::MDBFileInfoView| -> mdb_shard::error::Result<()> {
+                    let mut b = Vec::new();
+                    v.serialize(&mut b)?;
+                    fb.push(b);
+                    Ok(())
+                };
+                let ccb = |v: mdb_shard::cas_structs::MDBCASInfoView| -> mdb_shard::error::Result<()> {
+                    let mut b = Vec::new();
+                    v.serialize(&mut b)?;
+                    cb.push(b);
+                    Ok(())
+                };
+                let sizes: Vec<usize> = c.frag.iter().map(|s| 1 + (*s as usize % 300)).collect();
+                let r = match (with_f, with_c, is_async) {
+                    (true, false, false) => process_shard_stream(&mut Cursor::new(&buf), Some(fcb), None::<CF>),
+                    (false, true, false) => process_shard_stream(&mut Cursor::new(&buf), None::<FF>, Some(ccb)),
+                    (false, false, false) => process_shard_stream(&mut Cursor::new(&buf), None::<FF>, None::<CF>),
+                    (true, false, true) => futures::executor::block_on(process_shard_stream_async(&mut SlowReader::new(&buf, sizes), Some(fcb), None::<CF>)),
+                    (false, true, true) => futures::executor::block_on(process_shard_stream_async(&mut SlowReader::new(&buf, sizes), None::<FF>, Some(ccb))),
+                    _ => futures::executor::block_on(process_shard_stream_async(&mut SlowReader::new(&buf, sizes), None::<FF>, None::<CF>)),
+                };
+                r.map_err(|e| format!("[sig:c09-stream-err] callbacks (files {with_f}, xorbs {with_c}, async {is_async}): {e}"))?;
+                let want_f: &[Vec<u8>] = if with_f { &want_file_bytes } else { &[] };
+                let want_c: &[Vec<u8>] = if with_c { &want_cas_bytes } else { &[] };
+                if fb[..] != *want_f || cb[..] != *want_c {
+                    return Err(format!(
+                        "[sig:c09-stream-partial] streaming reader with callbacks (files {with_f}, xorbs {with_c}, async {is_async}) lists {} file / {} xorb records, the shard holds {} / {}",
+                        fb.len(),
+                        cb.len(),
+                        want_f.len(),
+                        want_c.len()
+                    ));
+                }
+            }
         }
     }
     // minimal reader: all include-flag pairs, sync = async, and re-serialization re-loaded
